@@ -485,3 +485,188 @@ def replay(func, cex):   # noqa: F811
         return {"violated": bool(why), "observed": why, "what": f"program {p['name']} f({a}, {b}, {bool(c)}): {why}\n{p['src']}",
                 "fingerprint": f"calls:{p['name']}:{p.get('hash') or __import__('hashlib').sha256(p['src'].encode()).hexdigest()[:10]}"}
     return _replay_rd(func, cex)
+
+
+# ---- C08 / C09: abstract values ------------------------------------------------------------------------------------------
+def value_tables(i):
+    """stmt id -> list of (state_type, data_type, value) lian holds for the symbol defined there (union over status rows)."""
+    p = BATCH["programs"][i]
+    if "_vals" not in p:
+        space = {r["index"]: r for r in p.get("space", [])}
+        out = {}
+        for st in p.get("status", []):
+            ds = st.get("defined_symbol")
+            sym = space.get(ds)
+            if not sym or sym.get("symbol_or_state") != 0:
+                continue
+            lst = out.setdefault(st["stmt_id"], [])
+            for si in sym.get("states") or []:
+                s = space.get(si)
+                if s is None:
+                    lst.append((4, "", None))
+                else:
+                    lst.append((s.get("state_type", 1), s.get("data_type") or "", s.get("value")))
+        p["_vals"] = out
+    return p["_vals"]
+
+
+def _consts(states):
+    """parse lian's constant states natively: list of python constants, or None if an explicit unknown is present"""
+    out = []
+    for (st, dt, val) in states:
+        if st != 1:
+            return None
+        if val is None:
+            continue
+        sv = str(val)
+        if dt == "%string":
+            out.append(sv)
+            continue
+        if sv.endswith(".0"):
+            sv = sv[:-2]
+        try:
+            out.append(int(sv))
+            continue
+        except ValueError:
+            pass
+        if sv.lower() in ("true", "false"):
+            out.append(sv.lower() == "true")
+        else:
+            out.append(sv)
+    return out
+
+
+def covers(states, v):
+    cs = _consts(states)
+    if cs is None:
+        return True                           # explicit unknown (UNSOLVED / ANYTHING / UNINIT)
+    for c in cs:
+        if isinstance(c, str) != isinstance(v, str):
+            continue
+        if c == v:
+            return True
+    return False
+
+
+def run_module(i, inputs, hooks):
+    p = BATCH["programs"][i]
+    it = Interp({"m": p["rows"]}, hooks=hooks, fuel=2500, inputs=list(inputs))
+    try:
+        it.load_module("m")
+        return None
+    except GirError as e:
+        return "GirError: " + str(e)
+    except (ArithmeticError, LookupError, TypeError, ValueError, AttributeError, RecursionError) as e:
+        return type(e).__name__
+
+
+def cover_violation(i, args):
+    vals = value_tables(i)
+    problems = []
+
+    def on_def(act, row, name, value):
+        if problems or row["operation"] in ("parameter_decl", "method_decl", "class_decl", "forin_stmt"):
+            return
+        if not isinstance(value, (int, str)) or name is None:
+            return
+        sid = row["stmt_id"]
+        if sid not in vals:
+            return
+        if not covers(vals[sid], value):
+            problems.append(f"`{name}` defined at statement {sid} ({row['operation']}) takes the value {value!r}, which none of lian's "
+                            f"states for that definition covers: {vals[sid]}")
+    run_module(i, args, {"on_def": on_def})
+    return problems[0] if problems else None
+
+
+def check_cover(pidx: int, a: int, b: int, c: bool) -> bool:
+    """
+    pre: _pre(pidx, a, b)
+    post: _
+    """
+    why = cover_violation(pidx, (a, b, c))
+    if why:
+        return fail("cover", prog=BATCH["programs"][pidx]["name"], pidx=pidx, args=[a, b, c], why=why)
+    return True
+
+
+def check_cover_reach(pidx: int, a: int, b: int, c: bool) -> bool:
+    """
+    pre: _pre(pidx, a, b)
+    post: _
+    """
+    seen = []
+    run_module(pidx, (a, b, c), {"on_def": lambda act, row, name, value: seen.append(1)})
+    return not (len(seen) >= 3)
+
+
+def observe_decisions(i, decisions):
+    """Branch-directed run: the k-th executed if_stmt takes decisions[k].  Returns {stmt id: value} of primitive definitions."""
+    obs = {}
+    k = [0]
+
+    def decide(act, row, cond):
+        j = k[0]
+        k[0] += 1
+        return decisions[j] if j < len(decisions) else False
+
+    def on_def(act, row, name, value):
+        if row["operation"] in ("parameter_decl", "method_decl", "class_decl", "forin_stmt"):
+            return
+        if isinstance(value, (int, str)) and name is not None:
+            obs.setdefault(row["stmt_id"], []).append(value)
+    run_module(i, (0, 0, False), {"decide": decide, "on_def": on_def})
+    return obs, k[0]
+
+
+def check_exact_paths(pidx: int, d0: bool, d1: bool, d2: bool, d3: bool, d4: bool) -> bool:
+    """
+    pre: SLICE["range"][0] <= pidx < SLICE["range"][1] and pidx not in SLICE.get("skip", ())
+    post: _
+    """
+    from crosshair.core import deep_realize
+    from crosshair.tracers import NoTracing
+    obs, used = observe_decisions(pidx, [d0, d1, d2, d3, d4])
+    if used > 5:
+        return True
+    obs = deep_realize(obs)
+    with NoTracing():
+        with open(SLICE["obsfile"], "a") as f:
+            f.write(json.dumps({"pidx": int(pidx), "obs": {str(k): v for k, v in obs.items()}}) + "\n")
+    return True
+
+
+def exactness_problems(i, observed):
+    """observed: {stmt id(str): set of values} over ALL control-flow paths.  Compare with lian's constant sets."""
+    vals = value_tables(i)
+    out = []
+    for sid, states in vals.items():
+        if not states or any(st != 1 for (st, dt, v) in states):
+            continue
+        if any(dt not in ("%int", "%string", "%bool") for (st, dt, v) in states):
+            continue
+        seen = observed.get(str(sid))
+        if seen is None:
+            continue
+        lian = sorted({str(v)[:-2] if str(v).endswith(".0") else str(v) for (st, dt, v) in states})
+        real = sorted({str(int(x)) if isinstance(x, bool) and False else str(x) for x in seen})
+        real_alt = sorted({str(x).lower() for x in seen})
+        if lian != real and sorted(x.lower() for x in lian) != real_alt:
+            out.append(f"definition at statement {sid}: lian holds exactly {lian}, the union of the last values written over all "
+                       f"control-flow paths is {real}")
+    return out
+
+
+_replay_calls = replay
+
+
+def replay(func, cex):   # noqa: F811
+    if func.startswith("check_cover"):
+        prepare({"batch": SLICE["batch"]}) if not BATCH["programs"] else None
+        i = cex["pidx"]
+        a, b, c = cex["args"]
+        p = BATCH["programs"][i]
+        why = cover_violation(i, (a, b, bool(c)))
+        return {"violated": bool(why), "observed": why, "what": f"program {p['name']} inputs ({a}, {b}, {bool(c)}): {why}\n{p['src']}",
+                "fingerprint": f"cover:{p['name']}:{p.get('hash') or __import__('hashlib').sha256(p['src'].encode()).hexdigest()[:10]}"}
+    return _replay_calls(func, cex)
